@@ -213,7 +213,13 @@ func TestWorker(t *testing.T) {
 		if r := recover(); r != nil {
 			out.Infra = fmt.Sprintf("harness panic: %v\n%s", r, debug.Stack())
 		}
-		if cr := curRun; cr != nil && simrt.RaceBuild && out.Infra == "" && out.Violation == nil {
+		cr := curRun
+		if cr == nil && t.Failed() {
+			// ended while a run that had already been reported on was being shrunk
+			// (the run also violated one of the property's own clauses)
+			cr = lastRun
+		}
+		if cr != nil && simrt.RaceBuild && out.Infra == "" && out.Violation == nil {
 			// the test was ended by the testing package because the race detector
 			// reported something during this run
 			raceVerdict(out, cr)
@@ -302,6 +308,7 @@ func TestWorker(t *testing.T) {
 		spice(g, prog)
 		ch := simrt.NewChooser(seed ^ 0x5bd1e995)
 		curRun = &runCtx{prop: propID, prog: prog, ch: ch, idx: idx, seed: seed, base: base, tier: tier}
+		lastRun = curRun
 		res := RunOne(t, gp, prog, ch, hashMode)
 		curRun = nil
 		if gp != prop {
@@ -411,6 +418,10 @@ type runCtx struct {
 }
 
 var curRun *runCtx
+
+// lastRun is the run most recently started by the search loop (curRun is nil
+// while its result is being processed).
+var lastRun *runCtx
 
 // raceVerdict turns the race detector's report for the run that was in
 // progress into a violation (a frame of the code under test is involved) or an
